@@ -489,8 +489,9 @@ def rule_spilled_rows(ctx, cfg=REAL):
                     problems.add('spilled_rows is increased before the write is known to have succeeded')
         elif adds:
             problems.add('spilled_rows is increased on a path on which no write succeeded (%s)' % ('write failed' if wrote_any else 'nothing written'))
-    if ok_paths < 2:
-        problems.add('expected at least 2 successful-write paths (writer reused / writer opened), found %d' % ok_paths)
+    if ok_paths < 1:
+        # vacuity guard only: how many ways there are to reach the write (writer reused / opened inline / opened in a helper) is not part of the rule
+        problems.add('no path on which the batch write succeeds was found (anchor changed?)')
     if problems:
         ctx.fail('spilled-rows', 'append_batch', ctx.loc(rec), '; '.join(sorted(problems)), key='spilled-rows|append_batch')
     else:
